@@ -61,6 +61,7 @@ type printHypo struct {
 	escaper *types.Func
 	modeFld *types.Var
 	cancFld *types.Var
+	skip    map[*types.Func]bool // the tree walker and its direct callers: evaluating the printed expression is not the print's own write
 }
 
 func (h printHypo) expr(ev *evaluator, e ast.Expr, info *types.Info) (aval, bool) {
@@ -79,6 +80,9 @@ func (h printHypo) expr(ev *evaluator, e ast.Expr, info *types.Info) (aval, bool
 func (h printHypo) prim(ev *evaluator, fn *types.Func, call *ast.CallExpr, st state) (aval, bool) {
 	if fn == h.escaper {
 		return unknown, true // do not look inside: recorded as one "escaped write" event
+	}
+	if h.skip[fn] {
+		return unknown, true
 	}
 	return unknown, false
 }
@@ -138,9 +142,25 @@ func ruleR03a(c *Ctx) {
 		return
 	}
 	c.seen("soyhtml.state.evalPrint")
+	skip := map[*types.Func]bool{}
+	if wfd := c.mustFunc("soyhtml", "state.walk"); wfd != nil {
+		wfn := info.Defs[wfd.Name].(*types.Func)
+		skip[wfn] = true
+		for _, fd := range c.allFuncDecls("soyhtml") {
+			if fd == evalPrint {
+				continue
+			}
+			ast.Inspect(fd.Body, func(x ast.Node) bool {
+				if call, ok := x.(*ast.CallExpr); ok && calleeFunc(call, info) == wfn {
+					skip[info.Defs[fd.Name].(*types.Func)] = true
+				}
+				return true
+			})
+		}
+	}
 	for _, mn := range sortedKeys(modes) {
 		for _, cancel := range []bool{false, true} {
-			h := printHypo{modes[mn], cancel, escFn, modeFld, cancFld}
+			h := printHypo{modes[mn], cancel, escFn, modeFld, cancFld, skip}
 			ev := newEvaluator(c, h)
 			ev.watch[escFn.Name()] = true
 			ev.watch["WriteString"] = true
